@@ -83,3 +83,13 @@ META.update({
    text="About 100k operations per quick run (millions in thorough) over 16 seeds on up to 55 signals; every delivery's ordered run list must equal the model's.",
    note="sequential histories only"),
 })
+META.update({
+ "C03": dict(engine="native forked probes + strace + counting allocator", category="fault_enumeration",
+   technique="failpoint freeze sweep (operator thread parked at every site while deliveries of every built-in action set run on another thread and nested on the same thread, step counts compared with an interference-free baseline, /proc stuck-state probe) + strace syscall allow-list per delivery bracket + counting global allocator under real-signal stress",
+   text="234 (operation, variant, site, occurrence) points and 1170 deliveries in every run; every delivery must finish and pass exactly the baseline number of failpoints; strace shows only write/sendto inside handlers; zero heap operations inside millions of dispatches.",
+   note="boundaries = failpoints deterministically, arbitrary instructions only for the allocator monitor"),
+ "C18": dict(engine="native", category="exploration",
+   technique="runtime monitoring: gate-orchestrated schedules with the writer's own barrier iterations as the clock, offline log rule on HL_B_SPIN vs bracket exits, stable-stuck-state probe at quiescent points of a free-running mutator mix",
+   text="Hundreds to thousands of gate trials (both slot roles, 1..3 held deliveries per wave) and a free-running mix with forbidden-signal panics and concurrent first registrations; all criteria count the writer's own iterations or rest on stability, never on elapsed time.",
+   note="bounded restatement of liveness; infinite adversarial delivery streams are out of reach for finite runs"),
+})
